@@ -14,6 +14,11 @@ import (
 var (
 	configFilePath string
 
+	// saveConfigLock serializes SaveConfig. SaveConfig locks every option (in
+	// map iteration order) and keeps the locks until it is done, so two
+	// concurrent calls would deadlock each other.
+	saveConfigLock sync.Mutex
+
 	loadedConfigValidationErrors     []*ValidationError
 	loadedConfigValidationErrorsLock sync.Mutex
 )
@@ -62,6 +67,9 @@ func loadConfig(requireValidConfig bool) error {
 // It will acquire a read-lock on the global options registry
 // lock and must lock each option!
 func SaveConfig() error {
+	saveConfigLock.Lock()
+	defer saveConfigLock.Unlock()
+
 	optionsLock.RLock()
 	defer optionsLock.RUnlock()
 
